@@ -57,7 +57,7 @@ type cliFile struct {
 
 type cliFlag struct {
 	cmdVar, long, short, variable, kind string
-	persistent                           bool
+	persistent                          bool
 }
 
 type cliCmd struct {
@@ -66,9 +66,9 @@ type cliCmd struct {
 }
 
 type cliCtx struct {
-	fset       *token.FileSet
-	libAliases map[string]bool // import names of the in_toto package
-	pkgNames   map[string]bool // every imported package name
+	fset        *token.FileSet
+	libAliases  map[string]bool // import names of the in_toto package
+	pkgNames    map[string]bool // every imported package name
 	libFallible map[string]bool // in_toto function / method name -> last result is error
 	libKnown    map[string]bool
 	localFuncs  map[string]*ast.FuncDecl
